@@ -42,6 +42,11 @@ var HostFuncs = map[string]*Func{
 	"gvar":   {Host: "gvar", HP: []string{"any", "any"}, HV: true},
 	"gtyped": {Host: "gtyped", HP: []string{"int64", "string", "int64"}},
 	"gtvar":  {Host: "gtvar", HP: []string{"string", "int64"}, HV: true},
+	// gcall0(f) calls the script function f(); geach(list, f) calls f(x) for every element. Both
+	// Go parameters are func types WITHOUT results; an error raised by the callback comes back
+	// to the caller of the Go function
+	"gcall0": {Host: "gcall0", HP: []string{"func"}},
+	"geach":  {Host: "geach", HP: []string{"any", "func"}},
 	// gderef(p, b) dereferences the pointer p and returns [*p, b]; the model treats &e as e
 	"gderef": {Host: "gderef", HP: []string{"any", "any"}},
 }
@@ -69,6 +74,11 @@ func hostConv(v interface{}, typ string) (interface{}, bool) {
 		}
 		if s, ok := v.(string); ok {
 			return s, true
+		}
+		return nil, false
+	case "func":
+		if f, ok := v.(*Func); ok && f.Host == "" {
+			return f, true
 		}
 		return nil, false
 	}
@@ -1023,6 +1033,40 @@ func (m *Model) callHost(fn *Func, argExprs []*N, spread bool, sc *Scope) (inter
 		got = append(got, cv)
 	}
 	m.step()
+	switch fn.Host {
+	case "gcall0", "geach":
+		cb := got[len(got)-1].(*Func)
+		var items []interface{}
+		if fn.Host == "geach" {
+			l, ok := got[0].(*List)
+			if !ok {
+				m.unspec("geach over %T", got[0])
+			}
+			items = l.E
+		} else {
+			items = []interface{}{nil}
+		}
+		for _, it := range items {
+			var args []interface{}
+			if fn.Host == "geach" {
+				args = []interface{}{it}
+			}
+			if cb.VarArg || len(cb.Params) != len(args) {
+				m.unspec("callback with a parameter list other than the Go func type's")
+			}
+			m.feat("script_callback_called_by_go")
+			_, c := m.apply(cb, args)
+			if c.s == sErr {
+				// the error crosses the Go function: its text is not specified
+				m.feat("error_through_go_callback")
+				return nil, errc("error raised by a script callback", false)
+			}
+			if c.s != sNone {
+				m.unspec("callback left by %v", c.s)
+			}
+		}
+		return nil, ok0
+	}
 	return &List{E: got}, ok0
 }
 
